@@ -1,0 +1,21 @@
+//go:build verif
+// +build verif
+
+package bpv7
+
+// VerifForgetSingletons puts the package's lazily created singletons (endpoint manager, extension block
+// manager, administrative record manager) back into the state of a process that has not used them yet.
+// Only to be called while nothing else uses the package.
+func VerifForgetSingletons() {
+	endpointMutex.Lock()
+	endpointMngr = nil
+	endpointMutex.Unlock()
+
+	extensionBlockManagerMutex.Lock()
+	extensionBlockManager = nil
+	extensionBlockManagerMutex.Unlock()
+
+	administrativeRecordManagerMutex.Lock()
+	administrativeRecordManager = nil
+	administrativeRecordManagerMutex.Unlock()
+}
